@@ -295,6 +295,12 @@ def rule_conv(c, prog):
 
 
 def run(c, prog):
+    from . import C15 as _C15, C01_rot as _C01_rot
+    _C15.rule_sites(core.Alias(c, "C06"), prog, full=False)     # both readers: explicit value always stored, migrated only when absent — else the formats disagree on which spelling wins
+    _C01_rot.run(core.Alias(c, "C06"), prog)     # the binary format's rotation ids must denote the matrix the XML format spells out
+    from . import C16 as _C16
+    from sa import db as _dbm
+    _C16.rule_sername(core.Alias(c, "C06"), prog, _dbm.Database())     # two canonical properties written under one name lose a value
     rule_desc(c, prog)
     rule_conv(c, prog)
     # equivalence of the two decodings needs each codec's own round trip: the shared clauses are re-checked under C06
